@@ -9,6 +9,7 @@
 #include <cstdio>
 #include <fstream>
 #include <iostream>
+#include <unistd.h>
 
 #include "../model/model.hpp"
 #include "../seams/sim_alloc.hpp"
@@ -489,8 +490,15 @@ int main(int argc, char **argv)
         if (r.ok)
             std::printf("RUN %llu %llu %016llx %016llx %d ok\n", (unsigned long long)i, (unsigned long long)rs, (unsigned long long)r.obs,
                         (unsigned long long)r.sched_hash, nontrivial ? 1 : 0);
-        else
+        else {
             std::printf("RUN %llu %llu - - 0 VIOL key=%s op=0 :: %s\n", (unsigned long long)i, (unsigned long long)rs, r.key.c_str(), r.detail.c_str());
+            // racing or diverging code may have left shared state (statics, heap) behind:
+            // the next run gets a fresh process
+            std::printf("STATS %s\n", cnt.json().c_str());
+            std::printf("RESTART\n");
+            std::fflush(stdout);
+            _exit(0);
+        }
     }
     std::printf("STATS %s\n", cnt.json().c_str());
     std::printf("DONE\n");
